@@ -114,12 +114,17 @@ func newLockWorld(rc *RunCtx, sim *Sim, nClients int, override bool) *lockWorld 
 }
 
 func (w *lockWorld) addClient(c int, override bool) *lockClient {
+	return w.addClientWithID(c, override, lockID)
+}
+
+// addClientWithID: id may be another spelling of the same lock id (surrounding white space is not significant).
+func (w *lockWorld) addClientWithID(c int, override bool, id string) *lockClient {
 	seam := NewSeam(w.disk.View(c), c)
 	w.sim.Attach(seam)
 	vfs := filesystem.NewVirtualFileSystem(seam, filesystem.Custom, filesystem.IdentityPathConverterFunc).(*filesystem.VFS)
 	ctx, cancel := context.WithCancel(context.Background())
 	cl := &lockClient{id: c, seam: seam, vfs: vfs, ctx: ctx, cancel: cancel,
-		lock: filesystem.NewGenericRemoteLockFile(vfs, lockID, "/locks", override)}
+		lock: filesystem.NewGenericRemoteLockFile(vfs, id, "/locks", override)}
 	w.clients = append(w.clients, cl)
 	return cl
 }
